@@ -41,4 +41,7 @@ pub mod hll;
 pub mod tdigest;
 pub mod theta;
 
+#[cfg(feature = "verif-hooks")]
+pub mod verif;
+
 mod hash;
